@@ -22,7 +22,7 @@ import numpy as np
 
 from holopy.core.metadata import make_subset_data, dict_to_array
 from holopy.core.utils import ensure_array, ensure_listlike, ensure_scalar
-from holopy.core.holopy_object import HoloPyObject
+from holopy.core.holopy_object import HoloPyObject, found_by_name
 from holopy.core.errors import raise_fitting_api_error
 from holopy.scattering.errors import (MultisphereFailure, TmatrixFailure,
                                       InvalidScatterer, MissingParameter)
@@ -110,7 +110,9 @@ class Model(HoloPyObject):
             if isinstance(item, np.ndarray) and item.ndim == 1:
                 item = list(item)
             yield key, item
-        if hasattr(self, 'calc_func'):
+        init = type(self).__init__.__code__
+        if ('calc_func' in init.co_varnames[:init.co_argcount]
+                and found_by_name(self.calc_func)):
             yield 'calc_func', self.calc_func
 
     @classmethod
@@ -253,7 +255,9 @@ class Model(HoloPyObject):
         """
         optics_map = read_map(self._maps['optics'], pars)
         if 'noise_sd' in optics_map and optics_map['noise_sd'] is not None:
-            val = dict_to_array(schema, optics_map['noise_sd'])
+            val = optics_map['noise_sd']
+            if schema is not None:
+                val = dict_to_array(schema, val)
         elif hasattr(schema, 'noise_sd'):
             val = schema.noise_sd
         else:
